@@ -9,7 +9,8 @@ from ..core import real
 from ..oracle import (ACCEPT, REJECT, EITHER, slack3, slack_tripped_int, and3,
                       verdict3, validsig, sha256, shake256, pubkey_of_seed,
                       bool_of, base_mult, point_add, as_key_arg, PREFIXES, DECORATIONS, SUFFIXES,
-                      LOCK_FORMS, LIMITS, in_form, code_of, WRAPS, wrap_lock)
+                      LOCK_FORMS, LIMITS, in_form, code_of, WRAPS, wrap_lock,
+                      ARG_STYLES, styled_flags, styled_sigfields, maybe_twice)
 
 PID = 'C15'
 ISOLATE = True      # one forked process per run: nothing a run does to process-global
@@ -87,6 +88,8 @@ def gen_output(rng, kind, at_us):
          'allowed': rng.choice(['00', '00', '01', '03', 'ff', '06', '80', 'a0']),
          'hash_size': rng.choice([1, 16, 20, 32, 64]),
          'keys': rng.choice(['bytes', 'bytes', 'object']),
+         'call': rng.choice(['keyword', 'keyword', 'positional']),
+         'style': rng.choice(ARG_STYLES),
          'sigfields': {}}
     for k in rng.sample(range(1, 9), rng.rng(1, 3)):
         o['sigfields']['sigfield%d' % k] = rng.bytes(rng.choice([0, 1, 8, 32, 100, 255, 256, 300])).hex()
@@ -131,7 +134,8 @@ def gen_step(rng, cell, oid, out, clocks, vname, thr, fault_free):
             'keys': rng.choice(['bytes', 'bytes', 'object']), 'prefix': rng.choice(PREFIXES),
             'decor': rng.choice(DECORATIONS), 'suffix': rng.choice(SUFFIXES),
             'form': rng.choice(LOCK_FORMS), 'limits': rng.below(len(LIMITS)),
-            'wrap': rng.choice(WRAPS)}
+            'wrap': rng.choice(WRAPS), 'style': rng.choice(ARG_STYLES),
+            'twice': rng.choice(['', '', '', 'build', 'validate', 'build+validate'])}
     if not fault_free:
         r = rng.below(10)
         if r == 0:
@@ -210,40 +214,57 @@ def gen_plan(run_seed, idx, tier):
 def build_lock(out, keys):
     k = out['kind']
     pre = bytes.fromhex(out['preimage'])
-    kw = {'timeout': out['timeout'], 'sigflags': out['allowed']}
+    allowed = styled_flags(out['allowed'], out.get('style', 'plain'))
+    kw = {'timeout': out['timeout'], 'sigflags': allowed}
+    pos = out.get('call') == 'positional'       # the same arguments, by position
     recv, refund = keys['R'][1], keys['S'][1]
     recv, refund = as_key_arg('pub', recv, out.get('keys', 'bytes')), \
         as_key_arg('pub', refund, out.get('keys', 'bytes'))
     if k == 'htlc_sha' or k == 'htlc2_sha':
         fn = T.make_htlc_sha256_lock if k == 'htlc_sha' else T.make_htlc2_sha256_lock
+        if pos:
+            return fn(recv, refund, None if out['use_digest'] else pre,
+                      sha256(pre) if out['use_digest'] else None, out['timeout'], allowed)
         if out['use_digest']:
             return fn(recv, refund, digest=sha256(pre), **kw)
         return fn(recv, refund, preimage=pre, **kw)
     if k == 'htlc_shake' or k == 'htlc2_shake':
         fn = T.make_htlc_shake256_lock if k == 'htlc_shake' else T.make_htlc2_shake256_lock
+        if pos:
+            return fn(recv, refund, None if out['use_digest'] else pre,
+                      shake256(pre, out['hash_size']) if out['use_digest'] else None,
+                      out['hash_size'], out['timeout'], allowed)
         if out['use_digest']:
             return fn(recv, refund, digest=shake256(pre, out['hash_size']),
                       hash_size=out['hash_size'], **kw)
         return fn(recv, refund, preimage=pre, hash_size=out['hash_size'], **kw)
     if k == 'ptlc':
+        if pos:
+            return T.make_ptlc_lock(recv, refund, None, out['timeout'], allowed)
         return T.make_ptlc_lock(recv, refund, **kw)
+    if pos:
+        return T.make_ptlc_lock(recv, refund, base_mult(bytes.fromhex(out['tweak'])),
+                                out['timeout'], allowed)
     return T.make_ptlc_lock(recv, refund, tweak_point=base_mult(bytes.fromhex(out['tweak'])), **kw)
 
 
 def build_witness(step, out, keys, preimage):
     """Calls the real witness builder; returns the Script."""
     seed = as_key_arg('prv', keys[step['actor']][0], step.get('keys', 'bytes'))
-    sf = {k: bytes.fromhex(v) for k, v in out['sigfields'].items()}
+    style = step.get('style', 'plain')
+    sf = styled_sigfields({k: bytes.fromhex(v) for k, v in out['sigfields'].items()}, style)
     wk = step['wkind']
     pfx = step.get('prefix', '')
+    flag = styled_flags(step['flag'], style)
+    tw_b = 'build' in step.get('twice', '')     # same argument objects, second result used
     if wk == 'htlc':
-        return T.make_htlc_witness(seed, preimage, sf, step['flag'], pfx)
+        return maybe_twice(tw_b, T.make_htlc_witness, seed, preimage, sf, flag, pfx)
     if wk == 'htlc2':
-        return T.make_htlc2_witness(seed, preimage, sf, step['flag'], pfx)
+        return maybe_twice(tw_b, T.make_htlc2_witness, seed, preimage, sf, flag, pfx)
     if wk == 'ptlc':
         tw = bytes.fromhex(out['tweak']) if 'tweak' in out and step['actor'] == 'R' else None
-        return T.make_ptlc_witness(seed, sf, tw, step['flag'], pfx)
-    return T.make_ptlc_refund_witness(seed, sf, step['flag'], pfx)
+        return maybe_twice(tw_b, T.make_ptlc_witness, seed, sf, tw, flag, pfx)
+    return maybe_twice(tw_b, T.make_ptlc_refund_witness, seed, sf, flag, pfx)
 
 
 def sf_for(out):
@@ -435,6 +456,22 @@ def execute(plan, run):
         if lim:
             run.probe('explicit_limits')
         CLOCK.latency_us = kn['latency_us']
+        scripts = [w, lockf]
+        if step.get('style', 'plain') != 'plain':
+            run.probe('argument_style_' + step['style'])
+        if step.get('twice'):
+            run.probe('called_twice_' + step['twice'])
+        if 'validate' in step.get('twice', ''):
+            # a first validation (say, on arrival) with the very same objects; its
+            # verdict is not judged -- the second one below is
+            CLOCK.begin_call(step['validator'], [])
+            try:
+                F.flags['ts_threshold'] = step['thr']
+                F.run_auth_scripts(scripts, cache_in, **lim)
+            except BaseException:       # noqa
+                pass
+            finally:
+                CLOCK.end_call()
         CLOCK.begin_call(step['validator'], step['faults'])
         try:
             # (a witness ending in OP_RETURN must not be concatenated with the lock --
@@ -453,7 +490,7 @@ def execute(plan, run):
             else:
                 F.flags['ts_threshold'] = step['thr']
                 try:
-                    r = F.run_auth_scripts([w, lockf], cache_in, **lim)
+                    r = F.run_auth_scripts(scripts, cache_in, **lim)
                 except BaseException as e:      # noqa
                     run.aux_auth_raised += 1
                     r = 'raised_' + type(e).__name__
